@@ -65,7 +65,7 @@ def _spec(variants, k=0, opt=None):
     nd = len(variants)
     labels = [D.labels_of(kd, LENS[i], od) for i, (kd, od) in enumerate(variants)]
     kinds = [kd for kd, od in variants]
-    return D.spec(NAMES[:nd], labels, kinds, var=D.VARIANTS[k % len(D.VARIANTS)] if nd else "fresh", opt=opt)
+    return D.spec(NAMES[:nd], labels, kinds, vk=["f", "i", "f4", "i4"][k % 4], var=D.VARIANTS[k % len(D.VARIANTS)] if nd else "fresh", opt=opt)
 
 
 def shards(tier):
